@@ -117,7 +117,10 @@ class ClassTable:
                 return c, ci.fields[fname]
         # downcast: a field declared by exactly one subclass (the receiver's static type is a base class)
         hits = []
-        for c in self.subclasses(cls):
+        cands = list(self.subclasses(cls))
+        for b in self.mro(cls)[1:]:          # sibling classes (the receiver's static type may be too narrow in a spec)
+            cands += [c for c in self.subclasses(b) if c not in cands]
+        for c in cands:
             if c != cls and fname in self.classes[c].fields and (c, self.classes[c].fields[fname]) not in hits:
                 if not any(self.is_subclass(c, h[0]) for h in hits):
                     hits.append((c, self.classes[c].fields[fname]))
